@@ -10,6 +10,7 @@ import (
 
 	"github.com/Comcast/sheens/core"
 	"github.com/Comcast/sheens/crew"
+	"github.com/Comcast/sheens/match"
 	"github.com/Comcast/sheens/verifrt/ref/rstep"
 	"github.com/Comcast/sheens/verifrt/sched"
 	"github.com/Comcast/sheens/verifrt/snap"
@@ -186,6 +187,21 @@ func (e *svcEnv) do(ctx context.Context, op svcOp) string {
 			e.down = false
 		}
 		return ""
+	case "getspec":
+		// a client asks the service for a machine's specification (the getSpec / add requests do, outside the
+		// crew lock) and works with what it gets: a compiled specification, whoever else is asking for it
+		sp, err := s.GetSpec(ctx, &crew.SpecSource{Name: "counter"})
+		if err != nil {
+			return "ERR:" + err.Error()
+		}
+		w, err := sp.Spec().Walk(ctx, &core.State{NodeName: "start", Bs: match.NewBindings()}, []interface{}{map[string]interface{}{"inc": 1.0}}, &core.Control{Limit: 10}, nil)
+		if err != nil {
+			return "WALKERR:" + err.Error()
+		}
+		if to := w.To(); to != nil {
+			return "spec-walk->" + to.NodeName + rstep.Canon(map[string]interface{}(to.Bs))
+		}
+		return "spec-walk-stays"
 	case "read":
 		// a read-crew request: what it returns is a snapshot - every machine as it was at one moment
 		c := s.crew.Copy()
@@ -498,6 +514,9 @@ func C16(c *vh.Ctx) {
 	}
 }
 
+// concProp: the property a concurrent scenario is run for (the machinery is shared by C16 and C12mcrew).
+var concProp = "C16"
+
 func c16Conc(c *vh.Ctx, dir string, sc c16Scenario, si int, replay *c16Case) {
 	bound := c.Pick(2, 3)
 	if os.Getenv("VERIF_RACE") == "1" {
@@ -531,7 +550,7 @@ func c16Conc(c *vh.Ctx, dir string, sc c16Scenario, si int, replay *c16Case) {
 		if err == nil {
 			c.Eval()
 			for _, v := range check(x, r) {
-				c.Violation("C16/"+v[0], v[1], replay)
+				c.Violation(concProp+"/"+v[0], v[1], replay)
 			}
 		}
 		return
@@ -557,7 +576,7 @@ func c16Conc(c *vh.Ctx, dir string, sc c16Scenario, si int, replay *c16Case) {
 			r := x.UserData.(*c16Run)
 			c.Outcome("conc", r.key(sc))
 			for _, v := range check(x, r) {
-				key := "C16/" + v[0] + "/" + scenarioSig(sc)
+				key := concProp + "/" + v[0] + "/" + scenarioSig(sc)
 				if seen[key] {
 					c.R.ViolationKeys[key]++
 					continue
